@@ -564,6 +564,14 @@ class _Run:
     def user_nodes(self, entries):
         return ["/"] + [p for p, k, v in entries if not any(_is_internal(s) for s in p.split("/")[1:])]
 
+    def pkg_of(self, e):
+        n, v = self.ref_of(e)
+        try:
+            pm = self.schemas.provider(self.schemas.PluginRef(name=n, version=v))
+            return ep(str(pm.name), pm.version)
+        except KeyError:
+            return "?" + e
+
     def ref_of(self, e):
         n, v = e.split("__")
         return n, tuple(int(x) for x in v.split("."))
@@ -714,7 +722,11 @@ class _Run:
 
     # ------------------------------------------------------------------ fresh container on the same data
     def compare_fresh(self, live_obs, step, reopened):
-        fresh = self.MC(self.raw())
+        try:
+            fresh = self.MC(self.raw())
+        except Exception as e:  # noqa: BLE001
+            self.hit("C06", "index-cannot-be-rebuilt-from-disk", step=step, error="%s: %s" % (type(e).__name__, str(e)[:200]))
+            raise
         fo = self.toc_obs(fresh)
         if fo != live_obs:
             diff = [k for k in live_obs if live_obs[k] != fo.get(k)]
@@ -878,6 +890,12 @@ class _Run:
                     set(p for p, k, v in entries if p.startswith("/metador_container/packages/")))
             if prev_recs[0] - recs[0]:
                 self.tags.add("schema-record-removed")
+                if any(o[0] == "reopen" for o in ops[:step]):
+                    # the reference counts that decided this were rebuilt from disk, not counted up
+                    self.tags.add("schema-record-removed-after-reopen")
+                    pk = lambda q: self.pkg_of(q.rsplit("/", 1)[1])  # noqa: E731
+                    if set(map(pk, prev_recs[0] - recs[0])) & set(map(pk, recs[0])):
+                        self.tags.add("schema-record-removed-after-reopen-package-still-in-use")
             if prev_recs[1] - recs[1]:
                 self.tags.add("package-record-removed")
             if op[0] == "reopen" and objs:
@@ -915,12 +933,20 @@ def _tree(st):
     return "ok" if st == "ok" else "err"
 
 
-def impl(case):
+def impl(case, pid=None):
     tmp = tempfile.mkdtemp(prefix="vt-ctr-")
     r = None
     try:
         r = _Run(case, tmp)
-        out = r.run()
+        try:
+            out = r.run()
+        except Exception as e:  # noqa: BLE001
+            if not [d for d in r.oracle if pid is None or d.get("prop") == pid]:
+                raise
+            # the property was already violated (oracle hits recorded) when the real code or an
+            # observation broke down: report the violations, not the crash that followed from them
+            r.hit(pid or "C06", "breakdown-after-violation", error="%s: %s" % (type(e).__name__, str(e)[:200]))
+            return dict(out=[], oracle=r.oracle, tags=sorted(r.tags))
         return dict(out=out, oracle=r.oracle, tags=sorted(r.tags))
     finally:
         try:
@@ -1030,6 +1056,9 @@ for _n, _v, _p, *_r in VT_FAMILY:
                 PARENT_HINT[_n].append(_q)
 
 
+PKG_OF = {n: "metador-core" for n in INSTALLED}
+for _n, _v, _p, _pkg, _a in VT_FAMILY:
+    PKG_OF[_n] = _pkg
 DESCENDANTS = {}
 for _n, _ps in PARENT_HINT.items():
     for _q in _ps:
@@ -1156,6 +1185,16 @@ def gen_history(rng, n_ops, driver, insts, held=True, nq=5, nfinal=24, obs=None,
         have = sh.meta.get(p, set())
         if r < 0.68:
             cand = [n for n in ATTACHABLE if n not in have] or ATTACHABLE
+            q = rng.random()
+            used = set(n for ms in sh.meta.values() for n in ms)
+            if q < 0.25:
+                # another schema of a package that is in use already (shared package record)
+                pk = set(PKG_OF.get(n) for n in used)
+                cand = [n for n in cand if n not in used and PKG_OF.get(n) in pk] or cand
+            elif q < 0.5:
+                # an ancestor / descendant schema of one that is in use (shared parent/children maps)
+                rel = set(x for n in used for x in PARENT_HINT.get(n, []) + DESCENDANTS.get(n, []))
+                cand = [n for n in cand if n in rel] or cand
             name = rng.choice(cand)
             ver = pick_ver(name)
             vs = value_schema(name)
@@ -1214,6 +1253,30 @@ def gen_history(rng, n_ops, driver, insts, held=True, nq=5, nfinal=24, obs=None,
         nodes = sh.nodes()
         nonroot = [p for p in nodes if p != "/"]
         motif = rng.random() if boundaries else 1.0
+        if boundaries and ops and not any(o[0] in ("reopen", "patch") for o in ops[-4:]) and rng.random() < 0.1:
+            # boundaries matter most when the bookkeeping is shared: several used schemas of one package
+            used = sorted(set(n for ms in sh.meta.values() for n in ms))
+            if len(used) > len(set(PKG_OF.get(n) for n in used)):
+                ops.append(["reopen"] if rng.random() < 0.75 else ["patch"])
+                continue
+        if boundaries and ops and any(o[0] in ("reopen", "patch") for o in ops[-2:]) and rng.random() < 0.55:
+            # right after a boundary the index was rebuilt from disk: take metadata away again
+            # (removal is what consults the reference counts and the parent/child maps)
+            pairs = sorted((p, n) for p in nodes for n in sh.meta.get(p, ()))
+            if pairs:
+                cnt = {}
+                for _p, n in pairs:
+                    cnt[n] = cnt.get(n, 0) + 1
+                last = [x for x in pairs if cnt[x[1]] == 1]  # removal makes the schema unused
+                p, name = rng.choice(last if last and rng.random() < 0.7 else pairs)
+                if p != "/" and rng.random() < 0.3:
+                    ops.append(["del", p])
+                    sh.remove(p)
+                    sh.vacated.append((p, None))
+                else:
+                    sh.meta[p].discard(name)
+                    ops.append(["mdel", p, name])
+                continue
         if 0.25 <= motif < 0.32:
             # refused operation on annotated content (destination name is taken): nothing may change
             withm = [p for p in nonroot if sh.meta.get(p)]
@@ -1264,6 +1327,12 @@ def gen_history(rng, n_ops, driver, insts, held=True, nq=5, nfinal=24, obs=None,
             if withm and rng.random() < 0.85:
                 p = rng.choice(withm)
                 name = rng.choice(sorted(sh.meta[p]))
+                if rng.random() < 0.4:
+                    # an object of a schema whose descendants stay in use (queries by it must go on working)
+                    used = set(n for ms in sh.meta.values() for n in ms)
+                    par = sorted((x, n) for x in withm for n in sh.meta[x] if any(d in used for d in DESCENDANTS.get(n, [])))
+                    if par:
+                        p, name = rng.choice(par)
                 sh.meta[p].discard(name)
             else:
                 p = rng.choice(nodes)
@@ -1332,6 +1401,13 @@ def gen_history(rng, n_ops, driver, insts, held=True, nq=5, nfinal=24, obs=None,
             else:
                 dst = src.rstrip("/") + "/" + rng.choice(sh.names)  # into own subtree (allowed for copy)
             wm = rng.random() < 0.35
+            if wm and not back and rng.random() < 0.6:
+                # without_meta matters most for groups with annotated nodes below them
+                deep = [p for p in nonroot if sh.kind[p] == "g" and any(q != p and sh.meta.get(q) for q in sh.under(p))]
+                if deep:
+                    src = rng.choice(deep)
+                    if dst == src or dst in sh.kind:
+                        dst = sh.fresh_path(rng)
             ops.append(["copy", src, dst, wm, rng.random() < 0.2])
             if src in sh.kind and dst not in sh.kind and not (sh.kind[src] == "g" and dst.startswith(src + "/") and False):
                 par = dst.rsplit("/", 1)[0] or "/"
@@ -1616,11 +1692,11 @@ PARTS = {
     "C07": {"status", "obs"},
     "C20": {"selfdesc"},
 }
-N_CASES = {"quick": 110, "thorough": 1500}
+N_CASES = {"quick": 150, "thorough": 1500}
 
 
 def impl_for(pid, case):
-    r = impl(case)
+    r = impl(case, pid)
     r["oracle"] = [d for d in r["oracle"] if d.get("prop") == pid]
     return r
 
@@ -1638,8 +1714,11 @@ def run_prop(ctx, pid, mod, rule_extra=""):
                 "duplicate, invalid, missing node - each in every call shape meta[name | (name, ver) | SchemaClass | PluginRef] = instance | dict | "
                 "JSON | bytes | instance of the key class, values also of descendant / other vt.* schemas, classes of releases that are not "
                 "installed; operations on one kept node.meta handle; delete node; copy with/without metadata, path or node "
-                "object as source, also into the own subtree; move; copy/move back onto paths freed earlier in the same session (segment "
-                "alphabets of 2-4 names); close/reopen; IH5 patch boundaries) on h5py.File and IH5Record, over the "
+                "object as source, also into the own subtree, without_meta preferably on groups with annotated nodes below; move; copy/move back "
+                "onto paths freed earlier in the same session (segment alphabets of 2-4 names); moves/copies of annotated nodes that are refused "
+                "because the destination is taken; close/reopen; IH5 patch boundaries - preferably when several used schemas share a package, "
+                "followed by removal of metadata (last object of a schema, schemas whose descendants stay in use); attached schemas biased to "
+                "relatives / package mates of those in use) on h5py.File and IH5Record, over the "
                 "installed schemas core.file/dir/bib/imagefile/table and a harness-registered family vt.* (11 schemas, 2 packages, several "
                 "versions, 3-level inheritance, auxiliary parent). After EVERY step: canonical raw dump, TOC cache observations (public API + "
                 "_toc_path), sampled get/query observations; compared with the Lean model `drv_ctr`. Non-trivial = tagged (copy/move/delete of "
